@@ -5,7 +5,9 @@ From RecordUpdate Require Import RecordSet.
 From SV Require Import Base.Base IR.State.
 Import ListNotations RecordSetNotations.
 
-Inductive exn := XAssert | XValue | XKey | XRuntime | XType.
+(* XStuck: a KeyError raised half-way through a bulk update (only possible when the mirror
+   invariant is already broken); printed like XKey *)
+Inductive exn := XAssert | XValue | XKey | XRuntime | XType | XStuck.
 
 (* result of running (part of) a call: the state reached and the exception raised, if any *)
 Definition R := (state * option exn)%type.
